@@ -154,6 +154,7 @@ def _account(call: dict):
     sel = op.get("sel", [])
     sock = op.get("sock", [])
     waited = over = lockwait = 0
+    over_max = 0
     nsel = 0
     unbounded = False
     for ln in lines:
@@ -168,6 +169,7 @@ def _account(call: dict):
             el = ev[1] if ev[0] == "ready" else wv + ev[1]
             waited += min(wv, el)
             over += max(0, el - wv)
+            over_max = max(over_max, max(0, el - wv))
         elif p[0] == "lock" and p[1] == "wait":
             lk = op.get("lock", ["free"])
             d = 0 if lk[0] == "free" else lk[1]
@@ -180,6 +182,7 @@ def _account(call: dict):
     proc = sum(e[2] for e in consumed)
     ret = next((ln[4:] for ln in lines if ln.startswith("ret ")), None)
     tm = next((int(ln[2:]) for ln in lines if ln.startswith("t ")), None)
+    _account.last_over_max = over_max      # (side channel: the largest single over-sleep of this call)
     return waited, over, proc, lockwait, nsel, consumed, ret, tm, unbounded
 
 
@@ -218,6 +221,12 @@ def oracle(case: dict, real: list[str]) -> str | None:
                 return f"waited {waited + lockwait} ticks (select {waited} + lock {lockwait}) with a timeout of {T}"
             if tm > T + proc + over:
                 return f"call took {tm} ticks: more than timeout {T} + processing {proc} + over-sleep {over}"
+            # the time really spent in select() is what must be charged to the budget: a select() that over-sleeps shortens
+            # the waits after it, so the whole call can overshoot by ONE over-sleep (the last wait's) - never by their sum
+            if call["iter"] is None and tm > T + proc + getattr(_account, "last_over_max", over):
+                return (f"call took {tm} ticks with a timeout of {T} (+ processing {proc}): the over-sleeps of several select() "
+                        f"calls add up ({over} in total, {getattr(_account, 'last_over_max', over)} at most for one): "
+                        "the measured waiting time is not what is deducted from the budget")
             if T == 0 and (nsel or any(ln.startswith("lock wait") for ln in call["lines"])):
                 return "zero timeout but the call waited"
         # the lock could not be had within the budget: a legitimate TimeoutError whatever is buffered
